@@ -15,20 +15,20 @@ def _can_fail(g):
 
 
 ALL = [GRAPHS[g] for g in sorted(GRAPHS) if g not in HEAVY and _can_fail(GRAPHS[g])]
-_TYPES = {"g06", "g12", "g16", "g32", "g40"}      # graphs on which every raised exception type is tried (others: ValueError)
+_TYPES = {"g06", "g07", "g12", "g16", "g23", "g32", "g40"}      # graphs on which every raised exception type is tried (others: ValueError)
 
 for _g in ALL:
     _fp = _fault_params(_g)
     _ex = {k: (i == 0) for i, (k, _) in enumerate(_fp)}
     _ex["xk"] = 0
     T.register("C12", __name__, T.h_fault, {"hist": False}, [_g], lemma="surface", name_prefix="fault", timeout=300,
-               extra_params=_fp, extra_example=_ex, cubes={"xk": ([0, 1, 2, 3, 4, 5] if _g.gid in _TYPES else [0])}, example_a={},
+               extra_params=_fp, extra_example=_ex, cubes={"xk": ([0, 1, 2, 3, 4, 5, 6] if _g.gid in _TYPES else [0])}, example_a={},
                what="whatever subset of the user-supplied callables (bodies, callback, effects, predicates, steps) raises, and whichever "
                     "options are missing: evaluate() fails iff the eager reference fails; the failure is an EvaluationError whose source "
                     "is the object evaluate() was called on and whose cause chain contains the very exception object user code raised, "
                     "or a KeyNotFoundError carrying the key the reference finds missing",
                bounds="fault flags for up to 4 callables of the graph; raised type one of ValueError / KeyError / RuntimeError / custom / "
-                      "EvaluationError / KeyNotFoundError (cubes)")
+                      "EvaluationError / KeyNotFoundError / TypeError (cubes); domain predicates are faultable callables too")
 
 _HIST = [g for g in ALL if g.gid in ("g06", "g11", "g12", "g13", "g14", "g16", "g17", "g19", "g62", "g64", "g65")]
 for _g in _HIST:
@@ -41,3 +41,64 @@ for _g in _HIST:
                what="on one long-lived graph: after an evaluation that failed (fault or missing option), the same options without the "
                     "fault, the options completed with the missing keys, and the original options again all give what a fresh graph gives",
                bounds="history of 4 evaluations; fault flags for up to 4 callables; stub S1")
+
+
+# ---------------------------------------------------------------------------------------------------------
+from labrea import Option, Value, dataset
+from labrea.exceptions import EvaluationError
+
+from engine.api import harness
+from engine.hutil import chain, missing_key, note, quiet, untraced
+
+
+@harness("C12", lemma="real-reprs", stubs=("noS7",), cubes={"how": [0, 1, 2]}, example=dict(how=0, d=5, pd=True, a=1), timeout=300,
+         bounds="a dataset with overloads registered under aliases of different types (1, 'auto', None), used directly and as a "
+                "dependency, failing by a raising body / a missing option / an unmatched dispatch of an abstract dataset; the REAL "
+                "__repr__ of every labrea node is used here (stub S7 off), because error wrapping formats the failing node into its message",
+         what="building the error message never replaces the failure: it is still an EvaluationError with the right source and a cause "
+              "chain ending in the original exception")
+def real_reprs(how: int, d: int, pd: bool, a: int) -> int:
+    raised = []
+    with untraced():
+        def base(x=Option("A")):
+            if how == 0:
+                e = ZeroDivisionError("boom")
+                raised.append(e)
+                raise e
+            return ("base", x)
+
+        node = dataset.nocache(base, dispatch="D", abstract=(how == 2)) if how == 2 else dataset.nocache(base, dispatch="D")
+        node.register(1, Value("one"))
+        node.register("auto", Value("auto"))
+        node.register(None, Value("none"))
+
+        def parent(n=node):
+            return ("parent", n)
+
+        top = dataset.nocache(parent)
+    o = {}
+    if pd:
+        o["D"] = d
+    if how != 1:
+        o["A"] = a
+    for target in (node, top):
+        with quiet():
+            try:
+                v = target(o)
+                if pd and d == 1:
+                    continue
+                note("unexpected success", v)
+                return 0
+            except EvaluationError as e:
+                ch = chain(e)
+                note("target", "node" if target is node else "parent", "options", o, "chain", [type(x).__name__ for x in ch])
+                if e.source is not target:
+                    return 0
+                if how == 0 and not any(c is raised[-1] for c in ch):
+                    return 0
+                if how == 1 and missing_key(e) != "A":
+                    return 0
+            except Exception as e:
+                note("a non-EvaluationError escaped", type(e).__name__, str(e)[:200])
+                return 0
+    return 2
